@@ -144,6 +144,12 @@ func check(c Case) pbt.Verdict {
 	if relative && (time.Since(started) > 250*time.Millisecond || (routes[0].r.Err != nil && strings.Contains(routes[0].r.Err.Error(), "timeout"))) {
 		return pbt.Verdict{Excluded: "model-unspecified-and-long-running", Labels: []string{"excluded:" + why + " (long running)"}}
 	}
+	if relative {
+		// the program terminates quickly: the other routes get the usual generous context
+		ctx2, cancel2 := context.WithTimeout(context.Background(), 20*time.Second)
+		defer cancel2()
+		ctx = ctx2
+	}
 	// R2: READ without cursor, canonical layout
 	routes = append(routes, seq("R2-read-nil-cursor", func(e types.EnvType, i int) (types.MalType, error) {
 		ast, err := lisp.READ(val.Literal(c.Forms[i]), nil, e)
